@@ -15,7 +15,7 @@ import threading
 
 VERIF = os.path.dirname(os.path.dirname(os.path.abspath(__file__)))
 REPO = os.environ.get("VERIF_REPO", "/repo")
-BUILD = os.path.join(VERIF, "build")
+BUILD = os.environ.get("VERIF_BUILD") or os.path.join(VERIF, "build")   # (VERIF_BUILD / VERIF_REPO: seeded-change runs against a scratch worktree)
 JOBS = int(os.environ.get("VERIF_JOBS", "16"))
 
 LIB_SOURCES = [
